@@ -358,14 +358,14 @@ theorem wbound_poll {g : Cfg} {n : Nat} (ok : PWOK g n) (hk : g.p.flags.toNat % 
 /-- the rest of a poll whose handler part ended in the write phase -/
 theorem wout_finish {g : Cfg} {n : Nat} (ok : PWOK g n) (hk : g.p.flags.toNat % 2 = 1) {c : Conn} {r0 r' : AReq}
     {h0 : HState} {e2 : Run.Env} {O1 G dC dO : Bytes} (hph : c.phase = .handler r0 h0)
-    (hw : WOutG g.p.id g.data g.st (g.L1 ++ O1) r' e2 (handlerPoll (handlerFuel c.env r0) r0 h0 c.env))
+    (hw : WOutG g.p.id g.data g.st (g.L1 ++ O1) r' e2 (handlerPoll ((handlerFuel c.env r0 + scriptOf c)) r0 h0 c.env))
     (hts0 : TStep c.env.tr e2.tr) (hsg : e2.segs = c.env.segs)
     (hi : RInv g.K r' G e2.tr.input dC dO) (hpos : Pos g.R r'.sp.raw r'.sp.pay r'.sp.pad e2.tr.input)
     (hlk : r'.lock = .none) (hwr : r'.writeable = true) (hout : O1 ++ r'.sp.output = dO) (hrd : RdEv g e2.tr)
     (hb : Ben c.env.tr) (hstop : c.stop = false) (hev : Ev1 g c.env.tr) (hsc : c.scripts = g.more) :
     GRes (SW g n) (AW g) 3 c := by
   have hstep := C07.handler_step c r0 h0 hph
-  rcases hhp : handlerPoll (handlerFuel c.env r0) r0 h0 c.env with ⟨r2, h2, e3, res⟩
+  rcases hhp : handlerPoll ((handlerFuel c.env r0 + scriptOf c)) r0 h0 c.env with ⟨r2, h2, e3, res⟩
   rw [hhp] at hstep hw
   obtain ⟨hr2, q1, q2, q3, q4⟩ := hw
   simp only at hr2 q1 q2 q3 q4
@@ -413,7 +413,7 @@ theorem hrw_poll {g : Cfg} {n : Nat} (ok : PWOK g n) (hk : g.p.flags.toNat % 2 =
     (hb : Ben c.env.tr) (hstop : c.stop = false) (hev : Ev1 g c.env.tr) (hsc : c.scripts = g.more) :
     GRes (SW g n) (AW g) 4 c := by
   have hK := ok.kok
-  obtain ⟨f, hf⟩ : ∃ f, handlerFuel c.env r = f + 2 := ⟨handlerFuel c.env r - 2, by have := handlerFuel_ge c.env r; omega⟩
+  obtain ⟨f, hf⟩ : ∃ f, (handlerFuel c.env r + scriptOf c) = f + 2 := ⟨(handlerFuel c.env r + scriptOf c) - 2, by have := handlerFuel_ge c.env r; omega⟩
   obtain ⟨ops, sub, ws, pr⟩ := h
   simp only at hops hws hpr
   subst hops hws hpr
@@ -442,7 +442,7 @@ theorem hrw_poll {g : Cfg} {n : Nat} (ok : PWOK g n) (hk : g.p.flags.toNat % 2 =
     have hid' : r'.sp.request.id = g.p.id := by rw [hreq]; rfl
     have hrole' : r'.sp.request.role = 1 := by rw [hreq]; exact ok.role
     -- the handler goes on: `open`, `write_all`
-    have heqX : handlerPoll (handlerFuel c.env r) r
+    have heqX : handlerPoll ((handlerFuel c.env r + scriptOf c)) r
           { ops := .read (n' + 1) :: oscript g.data g.st, sub := sub, writers := [], propagate := true } c.env =
         handlerPoll (f + 1) r' { ops := oscript g.data g.st, propagate := true }
           (({ c.env with mutex := m', tr := t' } : Run.Env).ev s!"r={k}:{hexOrDash d}") := by
